@@ -58,6 +58,9 @@ type Case struct {
 	// RealStore: the directory-backed trust store instead of the scripted one; the ca / signing
 	// authority store and the tsa store carry the SAME name there (types keep them apart)
 	RealStore bool `json:"realStore,omitempty"`
+	// AnchorInter: the signing trust store holds the first intermediate certificate instead of the root
+	// (chains of three or more): what sits above the trust anchor is still part of the chain
+	AnchorInter bool `json:"anchorIntermediate,omitempty"`
 }
 
 var (
@@ -211,7 +214,11 @@ func check(c Case) (string, string, verdicts) {
 	}
 	env := envb.Build(spec)
 	stores := []string{storeType + ":x"}
-	ts := mocks.NewTrustStore().Put(storeType, "x", ch.Root().Cert)
+	anchor := ch.Root().Cert
+	if c.AnchorInter && n >= 3 {
+		anchor = ch.Certs[1].Cert
+	}
+	ts := mocks.NewTrustStore().Put(storeType, "x", anchor)
 	tsaName := "t"
 	if c.RealStore {
 		tsaName = "x" // same name as the signing store, another type
@@ -381,6 +388,9 @@ func classes(c Case, v verdicts) []string {
 	if c.Ctor != "" {
 		cl = append(cl, "constructor="+c.Ctor)
 	}
+	if c.AnchorInter && len(c.Windows) >= 3 {
+		cl = append(cl, "trust-anchor-is-intermediate")
+	}
 	if c.RealStore {
 		cl = append(cl, "real-directory-store")
 	}
@@ -482,6 +492,7 @@ func drawCase(rt *rapid.T) Case {
 	c.StoreOrd = rapid.IntRange(0, 3).Draw(rt, "storeOrder")
 	c.RevAction = rp.Pick(rt, "revAction", "", "", "skip", "skip", "enforce")
 	c.Ctor = rp.Pick(rt, "ctor", "", "", "legacy")
+	c.AnchorInter = len(c.Windows) >= 3 && rapid.IntRange(0, 2).Draw(rt, "anchorIntermediate") == 0
 	c.RealStore = len(c.Windows) > 1 && rapid.IntRange(0, 4).Draw(rt, "realStore") == 0
 	return c
 }
